@@ -71,10 +71,22 @@ Configs ==
   \cup { [form |-> f, k |-> 0, na |-> 0, use |-> "print", nest |-> "none", special |-> "unknown", host |-> "entry"] : f \in {"alias", "from"} }
   (* the caller's variables carry the parameters' names: arguments are evaluated in the caller's scope, all of them before any
      parameter is bound *)
+  \cup { [form |-> "alias", k |-> 1, na |-> 1, use |-> "print", nest |-> "none", special |-> "rebind", host |-> "entry"] }
   \cup { [form |-> f, k |-> 2, na |-> 2, use |-> u, nest |-> n, special |-> "swap", host |-> "entry"] : f \in Forms, u \in {"print", "macroarg"}, n \in {"none", "loop"} }
 
+(* a second library whose macros have the same names and different bodies: importing it under an alias or name that is
+   already bound replaces the binding *)
+Lib2 == <<MacroS("m1", <<"p1">>, <<Text("n1("), PrintS(NameE("p1")), Text(",)"), PrintS(CallE("nul", <<StrE("lib2")>>))>>)>>
 Program(c) ==
-  CASE c.special = "outer" -> Prelude(c.form) \o <<Text("^")>> \o UseOf(c, CallM(c.form, "outer", Args(c.na))) \o <<Text("$")>>
+  CASE c.special = "rebind" ->
+         <<Text("^"), FromS(StrE("lib"), << <<"m1", "m1">> >>), PrintS(CallE("m1", <<IntE(11)>>)),
+           FromS(StrE("lib2"), << <<"m1", "m1">> >>), PrintS(CallE("m1", <<IntE(11)>>)), Text("|"),
+           ImportS(StrE("lib"), "L"), PrintS(AttrCall(NameE("L"), "m1", <<IntE(11)>>)),
+           ImportS(StrE("lib2"), "L"), PrintS(AttrCall(NameE("L"), "m1", <<IntE(11)>>)), Text("|"),
+           ForS("", "v", ArrE(<<StrE("lib"), StrE("lib2"), StrE("lib")>>), NoE,
+                <<ImportS(NameE("v"), "L"), FromS(NameE("v"), << <<"m1", "q">> >>), PrintS(AttrCall(NameE("L"), "m1", <<IntE(1)>>)), PrintS(CallE("q", <<IntE(2)>>))>>, <<>>, FALSE),
+           Text("$")>>
+    [] c.special = "outer" -> Prelude(c.form) \o <<Text("^")>> \o UseOf(c, CallM(c.form, "outer", Args(c.na))) \o <<Text("$")>>
     [] c.special = "unknown" ->
          IF c.form = "alias" THEN <<ImportS(StrE("lib"), "L"), Text("^"), PrintS(AttrCall(NameE("L"), "nope", <<>>)), Text("$")>>
          ELSE <<Text("^"), FromS(StrE("lib"), << <<"nope", "nope">> >>), Text("$")>>
@@ -90,7 +102,7 @@ CallStmts(c) == IF c.special = "outer" THEN UseOf(c, CallM(c.form, "outer", Args
 Templates(c) == ("t" :> IF c.host = "childblock"
                         THEN Prelude(c.form) \o <<Text("^"), BlockS("body", <<Text("base")>>), Text("$")>>
                         ELSE Program(c))
-                @@ ("lib" :> Defs("lib"))
+                @@ ("lib" :> Defs("lib")) @@ ("lib2" :> Lib2)
                 @@ (IF c.host = "entry" THEN <<>>
                     ELSE ("top" :> CASE c.host = "include" -> <<IncludeS(StrE("t"), NoE, FALSE)>>
                                      [] c.host = "embed" -> <<EmbedS(StrE("t"), NoE, FALSE, <<>>)>>
@@ -98,7 +110,8 @@ Templates(c) == ("t" :> IF c.host = "childblock"
                                      [] OTHER -> <<ExtendsS(StrE("t"))>>))
 Entry(c) == IF c.host = "entry" THEN "t" ELSE "top"
 Expected(c) ==
-  CASE c.special = "outer" -> "^" \o UseExp(c, "<" \o Result(1, IF c.na >= 1 THEN 1 ELSE 0) \o ">") \o "$"
+  CASE c.special = "rebind" -> "^m1(11,)n1(11,)|m1(11,)n1(11,)|m1(1,)m1(2,)n1(1,)n1(2,)m1(1,)m1(2,)$"
+    [] c.special = "outer" -> "^" \o UseExp(c, "<" \o Result(1, IF c.na >= 1 THEN 1 ELSE 0) \o ">") \o "$"
     [] c.special = "unknown" -> "^"
     [] c.special = "swap" -> IF c.nest = "loop" THEN "^" \o UseExp(c, "m2(1,x,)") \o UseExp(c, "m2(2,y,)") \o "$"
                              ELSE "^" \o UseExp(c, "m2(B,A,)") \o "$"
